@@ -115,6 +115,18 @@ def custom_columns(rng, n, allow_sub):
     return cols, has_sub
 
 
+def rand_arrays(rng):
+    """1-D numpy arrays of the dtype classes int / bool / float / object / str, each empty with probability 1/2; a tuple"""
+    out = {}
+    for name, dt, vals in (("a_int", np.int64, [3, -1, 2 ** 40]), ("a_i32", np.int32, [1, 2]), ("a_bool", np.bool_, [True, False, True]),
+                           ("a_float", np.float64, [0.5, 1e-20, 3.0]), ("a_obj", object, ["x", 1, None]), ("a_str", str, ["a", "bc"])):
+        if rng.random() < 0.6:
+            out[name] = np.array([] if rng.random() < 0.5 else vals[:rng.randint(1, len(vals))], dtype=dt)
+    if rng.random() < 0.5:
+        out["a_tuple"] = rng.choice([(), (1, 2.5, "a"), (True,)])
+    return out
+
+
 def make_net(ctx, rng, allow_sub=False):
     net = nets.rand_net(rng, nb=rng.randint(4, 8), chords=rng.randint(0, 2), n_trafo=rng.randint(0, 2), shuffle_index=rng.random() < 0.6,
                         n_trafo3w=rng.choice([0, 0, 1]), oos=0.15)
@@ -127,12 +139,20 @@ def make_net(ctx, rng, allow_sub=False):
     net.bus["name"] = pd.Series(names, index=net.bus.index, dtype=object)
     if rng.random() < 0.5:
         net.user_pf_options = {"tolerance_mva": rng.choice([1e-6, 1e-9]), "calculate_voltage_angles": rng.random() < 0.5}
-    if rng.random() < 0.5 and len(net.load):
+    if rng.random() < 0.65 and len(net.load):
         from pandapower.control import ConstControl
         from pandapower.control.util.characteristic import Characteristic, SplineCharacteristic
-        ConstControl(net, "load", "p_mw", element_index=[int(net.load.index[0])], profile_name=None, data_source=None)
+        # element_index: sometimes an EMPTY int array (its dtype must survive), else one or two load indices
+        ei = rng.choice([np.array([], dtype=np.int64), [int(net.load.index[0])], np.array([int(i) for i in net.load.index[:2]], dtype=np.int64)])
+        c = ConstControl(net, "load", "p_mw", element_index=ei, profile_name=None, data_source=None)
+        # array / tuple attributes of every dtype class, empty and non-empty (objects are serialised attribute by attribute)
+        for name, arr in rand_arrays(rng).items():
+            setattr(c, name, arr)
         Characteristic(net, [0.0, 1.0, 2.5], [1.0, 3.0, 2.0])
         SplineCharacteristic(net, [0.0, 1.0, 2.5, 4.0], [1.0, 3.0, 2.0, 5.0], interpolator_kind="Pchip")
+    if rng.random() < 0.5:
+        for name, arr in rand_arrays(rng).items():           # net-level entries
+            net["user_" + name] = arr
     if rng.random() < 0.4:
         pp.create_std_type(net, {"r_ohm_per_km": 0.1 + rng.random(), "x_ohm_per_km": 0.3, "c_nf_per_km": 10.0, "max_i_ka": 0.5, "note": rng.choice(STRS)}, rng.choice(["my type", "12", ""]), "line")
     return net, tab, cols, has_sub
@@ -143,42 +163,82 @@ def missing(v):
     return v is None or v is pd.NA or (isinstance(v, float) and math.isnan(v))
 
 
-def obj_equal(x, y):
-    """controller / characteristic objects: same class, same attributes (arrays by value); JSONSerializableClass.equals itself
-    raises on list attributes (pd.notna of a list), so it is not used"""
-    if type(x).__name__ != type(y).__name__:
+_LAST = [""]
+
+
+def seq_equal(a, b):
+    """arrays: same type, dtype, shape and values (floats within 1e-14, NaN == NaN); tuples / lists: same type and items"""
+    if type(a) is not type(b):
         return False
-    dx = {k: v for k, v in x.__dict__.items() if k not in ("_interpolator", "net")}
-    dy = {k: v for k, v in y.__dict__.items() if k not in ("_interpolator", "net")}
-    if set(dx) != set(dy):
+    if isinstance(a, np.ndarray):
+        if a.dtype != b.dtype or a.shape != b.shape:
+            return False
+        if a.dtype.kind == "f":
+            return bool(np.allclose(a, b, rtol=0, atol=1e-14, equal_nan=True))
+        return all((x is None and y is None) or (x == y and type(x) is type(y)) for x, y in zip(a.ravel().tolist(), b.ravel().tolist()))
+    if len(a) != len(b):
         return False
-    for k in dx:
-        a, b = dx[k], dy[k]
-        try:
-            if isinstance(a, (list, tuple, np.ndarray)) or isinstance(b, (list, tuple, np.ndarray)):
-                aa, bb = np.asarray(a, dtype=object), np.asarray(b, dtype=object)
-                if aa.shape != bb.shape:
-                    return False
-                try:
-                    if not np.allclose(np.asarray(a, dtype=float), np.asarray(b, dtype=float), rtol=0, atol=1e-14, equal_nan=True):
-                        return False
-                except (TypeError, ValueError):
-                    if list(aa.ravel()) != list(bb.ravel()):
-                        return False
-            elif isinstance(a, float) and isinstance(b, float):
-                if not (abs(a - b) <= 1e-14 or (a != a and b != b)):
-                    return False
-            elif isinstance(a, pd.DataFrame):
-                if not a.equals(b):
-                    return False
-            elif hasattr(a, "__dict__") and not callable(a):
-                if not obj_equal(a, b):
-                    return False
-            elif a != b:
-                return False
-        except Exception:
+    for x, y in zip(a, b):
+        if type(x) is not type(y) or not val_equal(x, y):
             return False
     return True
+
+
+def val_equal(a, b):
+    """recursive, dtype aware equality of attribute values"""
+    if isinstance(a, (np.ndarray, tuple, list)) or isinstance(b, (np.ndarray, tuple, list)):
+        return seq_equal(a, b)
+    if isinstance(a, dict) or isinstance(b, dict):
+        return isinstance(a, dict) and isinstance(b, dict) and list(a.keys()) == list(b.keys()) and all(val_equal(a[k], b[k]) for k in a)
+    if isinstance(a, (float, np.floating)) and isinstance(b, (float, np.floating)):
+        return bool(abs(a - b) <= 1e-14 * max(1.0, abs(a)) or (a != a and b != b))
+    if isinstance(a, pd.DataFrame):
+        return isinstance(b, pd.DataFrame) and a.equals(b)
+    if missing(a) or missing(b):
+        return missing(a) and missing(b)
+    if hasattr(a, "__dict__") and not callable(a) and not isinstance(a, type):
+        return obj_equal(a, b)
+    try:
+        return bool(a == b) and (isinstance(a, (bool, np.bool_)) == isinstance(b, (bool, np.bool_)))
+    except Exception:
+        return repr(a) == repr(b)
+
+
+def is_npbool_defect(a, b):
+    """repaired defect (fix: numpy booleans outside of tables survive the JSON round trip), tag kept for diagnosis: numpy bools were written as the strings "true"/"false" and read back with bool(str): False -> True"""
+    if isinstance(a, np.ndarray) and isinstance(b, np.ndarray) and a.dtype == np.bool_ and b.dtype == np.bool_ and a.shape == b.shape:
+        return bool(b.all()) and not bool(a.all())
+    if isinstance(a, np.bool_) and isinstance(b, (bool, np.bool_)):
+        return (not bool(a)) and bool(b)
+    return False
+
+
+def obj_diffs(x, y):
+    """controller / characteristic objects: same class, same attributes (arrays by dtype, shape and value).  Returns the list of
+    differing attributes as (name, description, is_npbool_defect).  JSONSerializableClass.equals itself raises on list attributes
+    (pd.notna of a list), so it is not used"""
+    if type(x).__name__ != type(y).__name__:
+        return [("__class__", "%s vs %s" % (type(x).__name__, type(y).__name__), False)]
+    dx = {k: v for k, v in x.__dict__.items() if k not in ("_interpolator", "net")}
+    dy = {k: v for k, v in y.__dict__.items() if k not in ("_interpolator", "net")}
+    out = []
+    if set(dx) != set(dy):
+        out.append(("__dict__", "attribute sets differ: %s" % sorted(set(dx) ^ set(dy)), False))
+    for k in dx:
+        if k not in dy:
+            continue
+        a, b = dx[k], dy[k]
+        try:
+            ok = val_equal(a, b)
+        except Exception:
+            ok = False
+        if not ok:
+            out.append((k, "%r (%s) vs %r (%s)" % (a, getattr(a, "dtype", type(a).__name__), b, getattr(b, "dtype", type(b).__name__)), is_npbool_defect(a, b)))
+    return out
+
+
+def obj_equal(x, y):
+    return not obj_diffs(x, y)
 
 
 def cmp_df(name, a, b, tol_abs, out, strict_dtype=True):
@@ -201,8 +261,8 @@ def cmp_df(name, a, b, tol_abs, out, strict_dtype=True):
                 elif abs(x - y) > tol_abs * max(1.0, abs(x)):
                     out.append((name, "value:" + str(c), "%r vs %r" % (x, y)))
             elif hasattr(x, "__dict__") and not isinstance(x, str):
-                if not obj_equal(x, y):
-                    out.append((name, "object:" + str(c), "%s vs %s" % (type(x).__name__, type(y).__name__)))
+                for attr, desc, npb in obj_diffs(x, y):
+                    out.append((name, ("npbool:" if npb else "object:") + "%s.%s" % (type(x).__name__, attr), desc[:200]))
             else:
                 try:
                     same = bool(x == y) and (isinstance(x, str) == isinstance(y, str))
@@ -232,6 +292,9 @@ def deep_compare(a, b, tol_abs, strict_dtype=True, only_elements=False):
                 cmp_df(k, va[common], vb[common], tol_abs, out, strict_dtype=False)
             else:
                 cmp_df(k, va, vb, tol_abs, out, strict_dtype)
+        elif not only_elements and isinstance(va, (np.ndarray, tuple)):
+            if k not in b or not seq_equal(va, b[k]):
+                out.append((k, "npbool:net entry" if (k in b and is_npbool_defect(va, b[k])) else "net entry", "%r (%s) vs %r (%s)" % (va, getattr(va, "dtype", type(va).__name__), b.get(k), getattr(b.get(k), "dtype", type(b.get(k)).__name__))))
         elif not only_elements and k in ("std_types", "user_pf_options", "name", "f_hz", "sn_mva"):
             if va != b.get(k):
                 out.append((k, "value", "%r vs %r" % (str(va)[:80], str(b.get(k))[:80])))
@@ -259,6 +322,17 @@ def res_equal(a, b):
 
 def classify(diffs, src_net, fmt):
     """all differences are +-inf cells read back as NaN (JSON) -> recorded finding"""
+    def is_numstr(w, d):
+        a, _, b = d.partition(" vs ")
+        try:
+            return w.startswith("value:") and a.startswith("'") and float(a.strip("'")) == float(b)
+        except ValueError:
+            return False
+    if fmt == "excel" and diffs and all(is_numstr(w, d) for _, w, d in diffs):
+        return "C20-excel-numeric-looking-strings"
+
+    def is_inf(w, d):
+        return w.startswith("value:") and d.split(" vs ")[0] in ("inf", "-inf", "np.float64(inf)", "np.float64(-inf)") and d.split(" vs ")[1] in ("nan", "np.float64(nan)", "None")
     if fmt.startswith("json") and diffs and all(w.startswith("value:") and d.split(" vs ")[0] in ("inf", "-inf", "np.float64(inf)", "np.float64(-inf)") and d.split(" vs ")[1] in ("nan", "np.float64(nan)", "None")
                                              for _, w, d in diffs):
         return "C20-json-inf-becomes-nan"
@@ -303,7 +377,9 @@ def run(ctx):
             for c, (d, ser) in cols.items():
                 if d == "DObject":
                     nn = [v for v in ser.values if not missing(v)]
-                    if nn and all(isinstance(v, (int, float)) and not isinstance(v, bool) for v in nn):
+                    # pandas parses the column as a float array iff it holds only numbers and (a float or a missing value)
+                    if nn and all(isinstance(v, (int, float)) and not isinstance(v, bool) for v in nn) and \
+                            (len(nn) < len(ser) or any(isinstance(v, float) for v in nn)):
                         d = "DObjNum"
                 terms.append("run_col %s %s" % (d, cq.lst([cell_term(v) for v in ser.values])))
                 back = None if n2 is None else [impl_cell(v) for v in n2[tab][c].values]
